@@ -13,24 +13,30 @@ UNITS = W.UNITS
 _timedur = REG["ruleTimeDuration"][0]
 _durint = REG["ruleDurationInterval"][0]
 
-TEXTS = ["", " ", "#a", "# ", "#1", "meet bob", "meet #a bob", "tomorrow", "a-b #x-y", "#", "##a", "x,(y)"]
+TEXTS = ["", "#a", "# ", "meet #a bob", "a-b #x-y", "x,(y)"]
 NTX = len(TEXTS)
 
 RES = [None,
-       Time(year=2020, month=2, day=29), Time(hour=8), Time(hour=8, minute=30), Time(POD="morning"),
-       Time(DOW=3), Interval(Time(hour=8), None), Interval(None, Time(year=2020, month=1, day=1)),
+       Time(year=2020, month=2, day=29), Time(hour=8, minute=30), Time(POD="morning"),
+       Interval(Time(hour=8), None),
        Interval(Time(year=2020, month=1, day=1, hour=9), Time(year=2020, month=1, day=1, hour=17, minute=5)),
-       Duration(3, DurationUnit.DAYS), Duration(0, DurationUnit.MINUTES)]
+       Duration(3, DurationUnit.DAYS)]
 NRES = len(RES)
 
 
-def ob_result(ti: int, n: int, r0: int, r1: int, s0: float, s1: float, none_only: bool, latent: bool) -> bool:
-    """
-    pre: 0 <= ti < NTX and 0 <= n <= 2 and 1 <= r0 < NRES and 1 <= r1 < NRES
-    pre: -1e6 <= s0 <= 1e6 and -1e6 <= s1 <= 1e6
-    post: _
-    """
-    txt = TEXTS[ti]
+SCORES = [-1e6, 3.25]      # rendering a symbolic float realises it; ordering is C14.SELECT's subject
+from crosshair.tracers import NoTracing, ResumedTracing
+
+
+def _pick(x, n):
+    with ResumedTracing():
+        for v in range(n):
+            if x == v:
+                return v
+    return 0
+
+
+def result_check(txt, n, r0, r1, s0, s1, none_only, latent):
     import copy
     cands = [CT.CTParse(copy.deepcopy(RES[r0]), (100, "ruleX"), s0, "subj", ["a"]),
              CT.CTParse(copy.deepcopy(RES[r1]), (101,), s1, "", [])][:n]
@@ -54,7 +60,21 @@ def ob_result(ti: int, n: int, r0: int, r1: int, s0: float, s1: float, none_only
     return isinstance(str(p), str) and isinstance(repr(p), str)
 
 
-def lift_result(ti, n, r0, r1, s0, s1, none_only, latent):
+def ob_result(ti: int, n: int, r0: int, r1: int, i0: int, i1: int, none_only: bool, latent: bool) -> bool:
+    """
+    pre: 0 <= ti < NTX and 0 <= n <= 2 and 1 <= r0 < NRES and 1 <= r1 < NRES and 0 <= i0 < 2 and 0 <= i1 < 2
+    pre: (n == 0 or ti == 0) and (n == 0 or not none_only) and (n == 2 or (r1 == 1 and i1 == 0)) and (n >= 1 or (r0 == 1 and i0 == 0))
+    post: _
+    """
+    with NoTracing():
+        try:
+            return result_check(TEXTS[_pick(ti, NTX)], _pick(n, 3), _pick(r0, NRES), _pick(r1, NRES), SCORES[_pick(i0, 2)], SCORES[_pick(i1, 2)],
+                                bool(_pick(none_only, 2)), bool(_pick(latent, 2)))
+        except Exception:
+            return False
+
+
+def lift_result(ti, n, r0, r1, i0, i1, none_only, latent):
     # the obligation is stated on ctparse() itself; the no-match path is reachable by any text
     # without a time expression
     out = []
